@@ -119,7 +119,7 @@ CHECKS["C12"] = dict(
          "battery of public operations.",
     ref="6 (C12), 10", technique="Coq proof by computation over translator-generated class tables + scheme-level eq/hash theorems; runtime monitoring for the mutation clause",
     note="PARTIAL: 'no public operation changes its arguments' is about the CPython heap and cannot be a theorem of a functional model; it is monitored at run time (snapshots), named as such. "
-         "Hash/eq theorems exist for legacy openssl, the semver family, gem, rpm, deb and alpm; for the other classes agreement is checked on the implementation. Known finding: maven == is not an equivalence where a sub-list with an empty first item faces a missing item.")
+         "Hash/eq theorems exist for every modelled class except maven (legacy openssl, semver family, gem, rpm, deb, alpm, ebuild/alpine, pypi, openssl); for maven, nuget and conan agreement is checked on the implementation. Known finding: maven == is not an equivalence where a sub-list with an empty first item faces a missing item.")
 
 CHECKS["C11"] = dict(
     text="Per modelled scheme the constructor is the code's `normalize; is_valid; build_value`, with the validity check and the builder as two separate code-shaped models. Proved: "
